@@ -36,6 +36,11 @@ var c38History = []Req{
 	post("/v2/l1/accounts/bob/metadata", `{"role":"user"}`),
 	post("/v2/l1/transactions/1/metadata", `{"tag":"t"}`),
 	{Method: "PUT", Path: "/v2/l1/metadata", Headers: jsonCT, Body: `{"owner":"me"}`},
+	// one log of every type in l1 (its export is the seed of the import route)
+	post("/v2/l1/transactions", `{"postings":[{"source":"world","destination":"zed","asset":"USD/2","amount":1}],"timestamp":"2023-01-05T00:00:00Z"}`),
+	post("/v2/l1/transactions/5/revert", ``),
+	post("/v2/l1/accounts/zed/metadata", `{"tmp":"1"}`),
+	{Method: "DELETE", Path: "/v2/l1/accounts/zed/metadata/tmp"},
 	post("/v2/ls/schemas/v1", schemaV1),
 	post("/v2/ls/schemas/v0", `{"chart":{"world":{".self":{}}}}`),
 	post("/v2/ls/transactions", `{"script":{"template":"DEPOSIT","vars":{"dest":"users:u1","mon":"USD/2 42"}},"timestamp":"2023-01-01T00:00:00Z"}`, KV{"schemaVersion", "v1"}),
@@ -86,6 +91,8 @@ type Seed struct {
 	MustReject func(ptrClass, replClass string) bool
 	// Write: a 2xx changes the database.
 	Write bool
+	// PartialEffect: see seedRef.
+	PartialEffect bool
 }
 
 type named struct{ Name, Val string }
@@ -94,7 +101,7 @@ var badAddresses = []named{{"empty", ""}, {"trailing-colon", "a:"}, {"leading-co
 var badAssets = []named{{"empty", ""}, {"lowercase", "usd"}, {"double-slash", "USD//2"}, {"trailing-slash", "USD/"}, {"leading-slash", "/2"}, {"digit-first", "9"}, {"dollar", "U$D"}, {"long-precision", "USD/1234567"}, {"long-name", "ABCDEFGHIJKLMNOPQRSTUVWXYZ"}, {"space", "US D"}}
 var badMonetaryStrings = []named{{"no-amount", "USD/2"}, {"negative", "USD/2 -1"}, {"lowercase-asset", "usd 1"}, {"fraction", "USD/2 1.5"}, {"exponent", "USD/2 1e3"}, {"double-slash-asset", "USD//2 1"}, {"no-asset", " 1"}, {"three-parts", "USD/2 1 1"}, {"empty", ""}}
 var badMonetaryObjects = []named{{"asset-invalid", `{"asset":"usd","amount":1}`}, {"amount-negative", `{"asset":"USD/2","amount":-1}`}, {"amount-fraction", `{"asset":"USD/2","amount":1.5}`}, {"amount-string-garbage", `{"asset":"USD/2","amount":"x"}`}, {"amount-1e400", `{"asset":"USD/2","amount":1e400}`}, {"amount-bool", `{"asset":"USD/2","amount":true}`}, {"no-asset", `{"amount":1}`}, {"no-amount", `{"asset":"USD/2"}`}, {"asset-number", `{"asset":5,"amount":1}`}, {"amount-object", `{"asset":"USD/2","amount":{}}`}}
-var badNumbers = []named{{"negative", "-1"}, {"fraction", "1.5"}, {"garbage", "abc"}, {"empty", ""}}
+var badNumbers = []named{{"fraction", "1.5"}, {"garbage", "abc"}, {"empty", ""}}
 var badPortions = []named{{"above-one", "2/1"}, {"zero-denominator", "1/0"}, {"garbage", "abc"}, {"percent-above-100", "150%"}, {"empty", ""}}
 
 func scriptVarValues(prefix string) (map[string][]named, map[string][]named) {
@@ -213,7 +220,7 @@ func c38Seeds(importBody string) []Seed {
 			Values:    postingValues("*.data.postings.*."),
 			RawValues: map[string][]named{"*.data.script.vars.mon": badMonetaryObjects}},
 		{API: "v2", Route: "POST /{ledger}/_bulk", Name: "continue", Write: true, BodyParsed: true,
-			Req: post("/v2/l1/_bulk", bulk, KV{"continueOnFailure", "true"}), BodyRequired: true, Extra: []string{"schemaVersion"},
+			Req: post("/v2/l1/_bulk", bulk, KV{"continueOnFailure", "true"}), BodyRequired: true, Extra: []string{"schemaVersion"}, PartialEffect: true,
 			MustReject: anyRule(postingFieldRule("*.data.postings.*."), monetaryVarRule("*.data.script.vars.mon"))},
 		{API: "v2", Route: "GET /{ledger}/_info", Req: get("/v2/l1/_info")},
 		{API: "v2", Route: "GET /{ledger}/stats", Req: get("/v2/l1/stats")},
